@@ -37,6 +37,12 @@
                     \u2028 \u2029, \ufffd for every byte that is not part of a valid
                     UTF-8 sequence; everything else is copied.
 
+   - [utf8_wvalb]   protocol values all of whose strings are valid UTF-8 (the
+                    hypothesis of the byte-level round trip).
+   - [wjv], [wprint], [erase], [ws_okb]
+                    values decorated with the white space written between
+                    their tokens (statement of C10T_whitespace_irrelevant).
+
    Fuel.  The parser is a recursive-descent function on a fuel argument; every
    recursive call is preceded by the consumption of at least one byte, and
    [parse_json fuel b] runs the descent with [fuel + fuel], so that
@@ -690,4 +696,66 @@ Definition utf8_wvalb (v : wval) : bool :=
   | WFilter f => utf8_filterb f
   | WC m => utf8_cmsgb m
   | WS m => utf8_smsgb m
+  end.
+
+(* ------------------------------------------------------------------ *)
+(** * Values decorated with the white space written between their tokens *)
+
+Inductive wjv :=
+| WAtom (j : jv)          (* a value in the printer's compact spelling *)
+| WArr (w0 : str) (l : list (str * wjv * str))
+      (* bracket, w0, then per element: white space, the element, white space; commas between; bracket *)
+| WObj (w0 : str) (m : list (str * str * str * str * wjv * str)).
+      (* brace, w0, then per member: white space, the name, white space, colon, white space, the value,
+         white space; commas between; brace *)
+
+Definition all_ws (w : str) : bool := forallb is_ws w.
+
+Definition wprint_elems (pw : wjv -> str) : list (str * wjv * str) -> str :=
+  fix go (l : list (str * wjv * str)) : str :=
+    match l with
+    | [] => [93]
+    | (wb, x, wa) :: l' =>
+        match l' with
+        | [] => wb ++ pw x ++ wa ++ [93]
+        | _ :: _ => wb ++ pw x ++ wa ++ 44 :: go l'
+        end
+    end.
+
+Definition wprint_members (pw : wjv -> str) : list (str * str * str * str * wjv * str) -> str :=
+  fix go (m : list (str * str * str * str * wjv * str)) : str :=
+    match m with
+    | [] => [125]
+    | (wb, k, wk, wc, v, wa) :: m' =>
+        match m' with
+        | [] => wb ++ print_str k ++ wk ++ 58 :: wc ++ pw v ++ wa ++ [125]
+        | _ :: _ => wb ++ print_str k ++ wk ++ 58 :: wc ++ pw v ++ wa ++ 44 :: go m'
+        end
+    end.
+
+Fixpoint wprint (d : wjv) : str :=
+  match d with
+  | WAtom j => print_json j
+  | WArr w0 l => 91 :: w0 ++ wprint_elems wprint l
+  | WObj w0 m => 123 :: w0 ++ wprint_members wprint m
+  end.
+
+(** the value spelled *)
+Fixpoint erase (d : wjv) : jv :=
+  match d with
+  | WAtom j => j
+  | WArr _ l => JArr (List.map (fun e : str * wjv * str => erase (snd (fst e))) l)
+  | WObj _ m => JObj (List.map (fun e : str * str * str * str * wjv * str =>
+                                  match e with (_, k, _, _, v, _) => (k, erase v) end) m)
+  end.
+
+(** every decoration is JSON white space *)
+Fixpoint ws_okb (d : wjv) : bool :=
+  match d with
+  | WAtom _ => true
+  | WArr w0 l => all_ws w0 && forallb (fun e : str * wjv * str =>
+                                         match e with (wb, x, wa) => all_ws wb && ws_okb x && all_ws wa end) l
+  | WObj w0 m => all_ws w0 && forallb (fun e : str * str * str * str * wjv * str =>
+                                         match e with (wb, _, wk, wc, v, wa) =>
+                                           all_ws wb && all_ws wk && all_ws wc && ws_okb v && all_ws wa end) m
   end.
